@@ -21,3 +21,12 @@ Proof.
   intros v. unfold get_ssh_version, src_get_ssh_version, drop_last, Base.drop_last, str_drop, str_skip. cbv zeta.
   rewrite rev_tl_rev. reflexivity.
 Qed.
+
+(* Software.between_versions as it reads now (T1c translation), over the results of the two comparisons *)
+Lemma tie_between : forall prod sver spatch vfrom vtill,
+  between prod sver spatch vfrom vtill = src_between_versions vfrom vtill (compare_version prod sver spatch vfrom) (compare_version prod sver spatch vtill).
+Proof.
+  intros. unfold between, src_between_versions, str_eqb. rewrite Z.gtb_ltb.
+  destruct (negb (String.eqb vfrom "") && (compare_version prod sver spatch vfrom <? 0))%Z; [reflexivity|].
+  destruct (negb (String.eqb vtill "") && (0 <? compare_version prod sver spatch vtill))%Z; reflexivity.
+Qed.
